@@ -99,7 +99,10 @@ def run(ctx):
 
     def label_of(kind, case):
         if kind == "ecases":
-            return "binary-" + case.get("class", "run")      # binary-run | binary-rejected
+            cl = case.get("class", "run")
+            if cl == "rejected":                             # binary-rejected-flag | -env | -config
+                return "binary-rejected-" + case.get("source", "flag")
+            return "binary-" + cl                            # binary-run | binary-inprocess
         return KINDS[kind][1]
 
     labels = sorted(set(label_of(k, c) for k, c in prop_bad + model_bad))
